@@ -22,7 +22,19 @@ r = sh('git -C /repo worktree add --detach %s' % wt)
 try:
     r = sh('git -C %s apply %s' % (wt, patch))
     if r.returncode != 0:
-        print('SEED %s m%s: patch does not apply: %s' % (pid, k, r.stdout[:300])); sys.exit(1)
+        r = sh('git -C %s apply --3way %s' % (wt, patch))
+    if r.returncode != 0:
+        alt = '/verif/seeded_rebased/%s-m%s.diff' % (pid, k)   # hand-rebased onto the fixed tree
+        if os.path.exists(alt):
+            sh('git -C %s checkout -- .' % wt)
+            patch = alt
+            r = sh('git -C %s apply %s' % (wt, patch))
+    if r.returncode != 0:
+        print('SEED %s m%s: patch does not apply to /repo HEAD: %s' % (pid, k, r.stdout[:300])); sys.exit(1)
+    sh('git -C %s reset -q' % wt)
+    patch_text = sh('git -C %s diff' % wt).stdout
+    patch = root + '/applied.diff'
+    open(patch, 'w').write(patch_text)
     env = dict(os.environ, ACSDATA=root, PYTHONDONTWRITEBYTECODE='1')
     a = sh('cd %s && PYTHONPATH=%s timeout 300 /venv/bin/python %s' % (root, wt, demo), env=env)
     b = sh('cd %s && PYTHONPATH=/repo timeout 300 /venv/bin/python %s' % (root, demo), env=env)
@@ -41,7 +53,10 @@ try:
         parts = f.split('.')
         # tests.test_x.Class::test  -> tests/test_x.py::Class::test
         modpath = '/'.join(parts[:2]) + '.py::' + '.'.join(parts[2:])
-        rr = sh('cd %s && timeout 900 /venv/bin/python -m pytest -q -p no:cacheprovider --timeout=900 "%s"' % (wt, modpath))
+        for attempt in range(3):
+            rr = sh('cd %s && timeout 900 /venv/bin/python -m pytest -q -p no:cacheprovider --timeout=900 "%s"' % (wt, modpath))
+            if rr.returncode == 0:
+                break
         if rr.returncode != 0:
             still.append(f)
     ok = (a.returncode != 0 and b.returncode == 0 and not still)
